@@ -121,8 +121,9 @@ int World::exec_meta(const Op &op) {
         case OP_prop_unit: {
             int variant = ((unsigned) a[2]) % 6;
             if (variant == 0) { p.unit(nix::none); if (m) m->has_unit = false; return 0; }
-            static const char *u[] = {"mV", "ms", "kHz", "uA", "s", "m/s"};
-            std::string un = u[r.below(6)];
+            // a Property accepts any unit string (blanks are dropped on the way in, so the pool has none)
+            static const char *u[] = {"mV", "ms", "kHz", "uA", "s", "m/s", "\xc2\xb5V", "muS/cm", "mumol/l", "kg*m^2/s^2", "\xce\xa9", "\xc2\xb0""C", "%", "dB", "arb.u.", "spikes/s", "mV^2/Hz", "m", "1/mus"};
+            std::string un = u[r.below(19)];
             p.unit(un); if (m) { m->has_unit = true; m->unit = un; }
             return 0;
         }
@@ -161,8 +162,9 @@ int create_frame_op(World &w, const Op &op) {
     Rng r(op.sub);
     int ncols = r.range(1, 8);
     std::vector<Column> cols;
-    static const char *cu[] = {"", "mV", "s", "Hz"};
-    for (int i = 0; i < ncols; i++) { Column c; c.name = "c" + std::to_string(i); c.unit = cu[r.below(4)]; c.dtype = kVarTypes[r.below(7)]; cols.push_back(c); }
+    // column units are stored as given
+    static const char *cu[] = {"", "mV", "s", "Hz", "", "m / s", "\xc2\xb5V", "muA", "kg m^2", " ms", "arb. u.", "1/mus"};
+    for (int i = 0; i < ncols; i++) { Column c; c.name = "c" + std::to_string(i); c.unit = cu[r.below(r.chance(1, 2) ? 4 : 12)]; c.dtype = kVarTypes[r.below(7)]; cols.push_back(c); }
     int invalid = ((unsigned) a[2]) % 20;
     std::string name = op.s;
     bool dup = b.hasDataFrame(name);
